@@ -650,12 +650,13 @@ def run_crash(case, r):
     r.info.update(n)
     r.classes += [f"crash.{case.get('mode', 'inproc')}.history", f"crash.job.{js1['kind']}", f"crash.nsteps={js1['nsteps']}",
                   f"crash.dump_mps={js1['dump_mps']}", "crash.restart" if js2 is not None else "crash.single_run"]
-    # enumerated points go into the class histogram (one label per enumerated crash sequence)
-    r.classes += ["crash.points.single_level"] * n["l1"] + ["crash.points.two_level"] * n["l2"]
-    r.classes += ["crash.points.single_level.oracle_binding"] * n["l1.required"]
-    r.classes += ["crash.points.two_level.oracle_binding"] * n["l2.required"]
-    r.classes += ["crash.points.single_level.inside_write_step>=2"] * n["l1.inside_write"]
-    r.classes += ["crash.points.two_level.restart_into_partial_file"] * n["l2.after_partial"]
+    # enumerated crash sequences go into the class histogram (one label per sequence)
+    m = "sigkill" if case.get("mode") == "death" else "inproc"
+    r.classes += [f"crash.points.{m}.single_level"] * n["l1"] + [f"crash.points.{m}.two_level"] * n["l2"]
+    r.classes += [f"crash.points.{m}.single_level.oracle_binding"] * n["l1.required"]
+    r.classes += [f"crash.points.{m}.two_level.oracle_binding"] * n["l2.required"]
+    r.classes += [f"crash.points.{m}.single_level.inside_write_step>=2"] * n["l1.inside_write"]
+    r.classes += [f"crash.points.{m}.two_level.restart_into_partial_file"] * n["l2.after_partial"]
     if getattr(t, "not_killed", 0):
         r.classes += ["crash.death.child_not_killed"] * t.not_killed
     r.nontrivial = n["l1.inside_write"] > 0 or n["l2.after_partial"] > 0
